@@ -241,7 +241,11 @@ Inductive op :=
 | DeliverH2C                        (* the controller processes the oldest command *)
 | Resume (w : Z)                    (* the task awaiting a command status runs and registers its wait *)
 | Loss                              (* Host.on_transport_lost() *)
-| Tick.                             (* the timers of calls on closed connections fire *)
+| Tick                              (* the timers of calls on closed connections fire *)
+| Cancel (w : Z).                   (* the task awaiting call w is cancelled, at any point (cancel_on_event,
+                                       cancel_on_disconnection, the application): every exit path of the
+                                       caller - this one included - releases what it holds, in particular
+                                       the HCI command gate (Host._send_command releases in its `finally`) *)
 
 Definition upd (s : state) (ctl' : list Z) (c2h' : list evt) (h2c' : list cmd)
            (ws : list waiter) : state :=
@@ -291,11 +295,15 @@ Definition on_resume (d : list Z) (x : waiter) : waiter :=
   | _, _ => x
   end.
 
+Definition on_cancel (x : waiter) : waiter :=
+  match w_st x with Done _ => x | _ => set_st x (Done OCancelled) end.
+
 Definition step (tbl : table) (s : state) (o : op) : state :=
   if lost s then
     match o with
     | Tick => upd s (ctl s) (c2h s) (h2c s) (map (on_tick (dev s)) (waiters s))
     | Resume w => upd s (ctl s) (c2h s) (h2c s) (map_waiter w (on_resume (dev s)) (waiters s))
+    | Cancel w => upd s (ctl s) (c2h s) (h2c s) (map_waiter w on_cancel (waiters s))
     | _ => s                       (* the stack is detached from its controller *)
     end
   else
@@ -370,6 +378,7 @@ Definition step (tbl : table) (s : state) (o : op) : state :=
       {| ctl := ctl s1; c2h := []; h2c := []; lost := true; host := host s1; dev := dev s1;
          regs := regs s1; waiters := waiters s1 |}
   | Tick => upd s (ctl s) (c2h s) (h2c s) (map (on_tick (dev s)) (waiters s))
+  | Cancel w => upd s (ctl s) (c2h s) (h2c s) (map_waiter w on_cancel (waiters s))
   end.
 
 Definition run (tbl : table) (ops : list op) (s : state) : state := fold_left (step tbl) ops s.
@@ -395,6 +404,17 @@ Definition settled (s : state) : bool :=
 
 Definition live_waiter (d : list Z) (x : waiter) : bool :=
   is_done (w_st x) || mem (kconn (w_key x)) d.
+
+(* The HCI command gate (Host.command_semaphore, pending_command / pending_response): held by
+   the call whose command is outstanding, from the write until the caller leaves
+   _send_command - by the response, a timeout, an error or its own cancellation. *)
+Definition holds_gate (x : waiter) : bool :=
+  match w_st x, w_kind x with
+  | Pending, WHciCommand => true
+  | Issuing, _ => true
+  | _, _ => false
+  end.
+Definition gate_busy (s : state) : bool := existsb holds_gate (waiters s).
 
 (* canonical observables for the correspondence harness *)
 Definition st_code (st : wstate) : Z :=
